@@ -473,9 +473,9 @@ class n0list(n0list_):
         other_not_exist_in_self = generate_composite_keys(other, composite_key, prefix, transform)
 
         notmutable__self_not_exist_in_other = self_not_exist_in_other.copy()
-        for composite_key, self_i  in notmutable__self_not_exist_in_other:
+        for item_key, self_i  in notmutable__self_not_exist_in_other:
             try:
-                other_i = other_not_exist_in_self[[itm[0] for itm in other_not_exist_in_self].index(composite_key)][1]
+                other_i = other_not_exist_in_self[[itm[0] for itm in other_not_exist_in_self].index(item_key)][1]
             except ValueError:
                 other_i = None
             # if composite_key in other_composite_keys:
@@ -614,8 +614,8 @@ class n0list(n0list_):
                             " != " +
                             f"{other_name}[{other_i}]='{other[other_i]}'"
                         )
-                del self_not_exist_in_other[[itm[0] for itm in self_not_exist_in_other].index(composite_key)]
-                del other_not_exist_in_self[[itm[0] for itm in other_not_exist_in_self].index(composite_key)]
+                del self_not_exist_in_other[[itm[0] for itm in self_not_exist_in_other].index(item_key)]
+                del other_not_exist_in_self[[itm[0] for itm in other_not_exist_in_self].index(item_key)]
             # ######### if key in other_not_exist_in_self:
         # ######### for key in notmutable__self_not_exist_in_other:
 
